@@ -21,7 +21,9 @@ SPEC = {
               quick_n=700, thorough_n=12000,
               rule="n scenarios, each 1-3 real uploader runs on one telemetry dir (one case line per run): 0-3 count files "
                    "written by the real counter library at chosen CounterTimes (years 200..9700, month/year/leap "
-                   "boundaries), mode file with the opt-in date at begin-1d / begin / begin+1d / end-1d / end / end+1d / far, "
+                   "boundaries) for one to three PROGRAMS (build info set per file) so that local/ lists a week's files in "
+                   "forward, reversed or random order relative to their begin days, two thirds of the multi-file scenarios "
+                   "inside one week, opt-in date placed between the begin days, mode file with the opt-in date at begin-1d / begin / begin+1d / end-1d / end / end+1d / far, "
                    "written raw or by the real SetModeAsOf, modes on/local/off/other/absent/directory, start instant at "
                    "end, end+-1ns, end+-1s, age 21d exactly, 21d+1ns, 21d+-1s, 28d, 293+ years, before end; X chosen by "
                    "replacing crypto/rand.Reader, sample rate 0, X, X+-ulp, 1, negative, tiny, random; left-over reports "
